@@ -958,7 +958,7 @@ DERIVATION_WRAPPERS = [
     'std::option::Option::<T>::unwrap_or_default', 'std::option::Option::<T>::take',
     'std::result::Result::<T, E>::unwrap', 'std::result::Result::<T, E>::expect',
     'std::ops::Try::branch', 'std::ops::FromResidual::from_residual',
-    'std::cell::RefCell::<T>::borrow', 'std::cell::RefCell::<T>::borrow_mut',
+    'std::cell::RefCell::<T>::borrow', 'std::cell::RefCell::<T>::borrow_mut', 'std::cell::Cell::<T>::get',
     'std::clone::Clone::clone', 'std::convert::Into::into', 'std::convert::From::from', 'std::string::String::as_str',
     'std::convert::AsRef::as_ref',
     'yarel::memory::Gc::<T>::as_root', 'yarel::memory::Root::<T>::as_gc',
